@@ -40,6 +40,13 @@ FUZZ = {
     "C19": dict(group="locale", runs=120000, max_len=320, nkinds=0),
 }
 
+# small-scope systematic enumeration (thorough tier only): every program of a small program space x every schedule with
+# at most `preempt` non-default choices
+ENUM = {
+    "C01": dict(preempt=2), "C02": dict(preempt=2), "C03": dict(preempt=2), "C12": dict(preempt=2),
+    "C07": dict(preempt=3), "C08": dict(preempt=3), "C20": dict(preempt=8),
+}
+
 RULE = {
     "C01": SCHED + "Programs: 2-5 (thorough 8) threads issuing read/write lock-unlock pairs (raw calls or ReadLock/WriteLock guards, 0-2 yields inside the "
            "section); shapes free mix / batch (writer holding across yields, >=2 readers, a further writer) / reader-heavy. Oracle: holder counters checked "
